@@ -31,7 +31,8 @@ func (p *Program) newExec(unit string) *Exec {
 		ghosts: map[string]*Object{}, counters: map[string]int{}, params: map[string]Value{}, unit: unit}
 	vcRef := x.vc
 	defBody = func(name string) string { return vcRef.bodies[name] }
-	for name, g := range p.contracts.Ghosts {
+	for _, name := range sortedKeys(p.contracts.Ghosts) { // fixed order: queries are the same text on every run
+		g := p.contracts.Ghosts[name]
 		o := x.newObject(name, "ghost", nil)
 		o.Lazy = true
 		x.ghosts[name] = o
